@@ -950,6 +950,12 @@ def c13(report, rng, tier, findings):
         base['vars'] = [(vid, rng.choice(classes),
                          rng.sample(all_objs, len(all_objs) if rng.random() < 0.5 else rng.randint(0, len(all_objs))))
                         for vid, _, _ in base['vars']]
+        if len(base['vars']) == 2 and rng.random() < 0.35:
+            # both variables range over the SAME collection, given as one shared From(...) object
+            v0_, v1_ = base['vars']
+            base['vars'] = [v0_, (v1_[0], v1_[1], list(v0_[2]))]
+            base['share_from'] = True
+            report.count('one_From_object_shared_by_two_variables')
         extra = base['cond'] if rng.random() < 0.4 else []
         pform, eq_by_var, nested = {}, {}, False
         ovars = list(base['vars'])
